@@ -339,7 +339,8 @@ def match_known(known, prop, fail):
     for k in known:
         if k.get("status") != "open" or prop not in k.get("properties", []):
             continue
-        if k.get("sig") != fail.get("sig"):
+        sigs = k.get("sig")
+        if fail.get("sig") not in (sigs if isinstance(sigs, list) else [sigs]):
             continue
         if re.search(k.get("case_regex", "^$"), fail.get("case", "")):
             return k
